@@ -32,6 +32,16 @@ Theorem C15_continue_after_accept :
   cbs_advance_on_success s reported = Some (mkb (index s) (chunk s) (reported - real_chunk s)).
 Proof. exact cbs_continue. Qed.
 
+(* ... and when the tool had clamped the range (it holds fewer instances than the chunk that was
+   asked for: reported <= removed chunk) nothing is left: the pass ends instead of continuing with a
+   meaningless count (the code as repaired by 109bf84: max(reported - chunk, 0)) *)
+Theorem C15_clamped_accept_ends :
+  forall s reported, reported <= real_chunk s -> cbs_advance_on_success s reported = None.
+Proof.
+  intros s reported H. unfold cbs_advance_on_success, advance_on_success.
+  replace (reported - real_chunk s) with 0 by lia. reflexivity.
+Qed.
+
 (* Output of a tool run that exited non-zero is never used: the file is untouched and the result
    is STOP (255; also 1 for the plain clang pass) or ERROR. *)
 Theorem C15_nonzero_never_candidate :
